@@ -68,7 +68,7 @@ def run (ctx : Algo.Ctx) (op : String) (args impl : List String) : Outcome :=
     let o := su.o
     let cols := (o "cols" "80").toNat!
     let rowsN := (o "rows" "24").toNat!
-    let info := match o "info" "default" with | "inline" => Info.inline | "hidden" => .hidden | _ => .default
+    let info := match o "info" "default" with | "inline" => Info.inline | "hidden" => .hidden | "inline-right" => .inlineRight | "right" => .right | _ => .default
     let ro0 : ROpts := {
       W := cols, H := rowsN, layout := su.top.layout, info, separator := o "sep" "1" == "1",
       prompt := Utf8.toRunes (dotBytes (o "prompt" "62.32")),
@@ -189,7 +189,7 @@ def run (ctx : Algo.Ctx) (op : String) (args impl : List String) : Outcome :=
             some s!"[C15] the prompt line shows {showRow promptTxt}, the query is {q}"
           else
           let counter := infoText ro found (max found su.ls.length) selected.length
-          let infoLine := if pl == 2 then rowAt infoY else promptTxt
+          let infoLine := if pl == 2 ∧ ro.info != .inlineRight then rowAt infoY else promptTxt
           if !ro.inputless ∧ ro.info != .hidden ∧ cols ≥ counter.length + ro.prompt.length + query.length + 8 ∧ !isSub counter infoLine then
             some s!"[C15] the info line shows {showRow infoLine}, expected the counter {showRow counter}"
           else
